@@ -804,9 +804,15 @@ func c06_4(c *core.Ctx, p *core.Prog) {
 			}
 			return "", false
 		}
+		// `len(pending) > 0` is a defensive conjunct: while the sent batch has items left to apportion (before < after)
+		// the list holds the entries those items came with (C06.7: one entry per received request, its count the growth
+		// of the batch). The guard is compared on the valuations where that invariant holds, so that keeping or
+		// dropping the defensive test makes no difference to the verdict.
+		guardEnvAssume = func(env map[string]int64) bool { return env["len(pending)"] > 0 || env["before"] >= env["after"] }
 		ok, w, n, err := compareGuard(g, conds, []string{"before", "after", "n", "len(pending)"}, []int64{0, 1, 2, 3}, func(env map[string]int64) bool {
 			return env["len(pending)"] > 0 && env["before"] < env["after"] && env["before"]+env["n"] > env["after"]
 		}, "equiv")
+		guardEnvAssume = nil
 		c.Stats["guard_valuations"] += n
 		if err != nil {
 			c.Undecided("partial|guard", pos, core.FuncName(fn), err.Error())
